@@ -61,6 +61,8 @@ type Explorer struct {
 	journal    []undoEntry
 	bounds     boundsMap
 	AbsDecided int64
+	completed  int
+	nextSample int
 
 	// budgets
 	maxPaths      int
